@@ -137,7 +137,10 @@ impl Monitor for C04 {
                                 // C05's business; keep the monitor's own state consistent
                                 st.retained = 0;
                             }
-                            st.high = Some(st.high.map(|h| h.max(*pos)).unwrap_or(*pos));
+                            // ..=u64::MAX parks the queue at the last representable next position
+                            // (the library saturates): its last position is then u64::MAX - 1
+                            let p_eff = (*pos).min(u64::MAX - 1);
+                            st.high = Some(st.high.map(|h| h.max(p_eff)).unwrap_or(p_eff));
                         }
                         if st.retained == 0 && st.empty_since.is_none() {
                             st.empty_since = Some((unlinks, restarts));
@@ -195,6 +198,11 @@ impl Monitor for C04 {
                 // probe every queue
                 let names: Vec<String> = inc.keys().cloned().collect();
                 for q in names {
+                    // a queue parked at the end of the position space by truncate(..=u64::MAX)
+                    // is not probed: appending there is the overflow corner of C10's findings
+                    if inc.get(&q).and_then(|s| s.high).map(|h| h >= u64::MAX - (1 << 32)).unwrap_or(false) {
+                        continue;
+                    }
                     let probe = Op::Append { q: q.clone(), pos: None, lens: vec![rng.usize(0, 30)], chained: false };
                     d.gen.note_external(&probe);
                     let st = d.apply(probe);
@@ -234,6 +242,9 @@ impl Monitor for C04 {
                                     crate::shim::set_root(&dir);
                                     return;
                                 }
+                            }
+                            if stq.high.map(|h| h >= u64::MAX - (1 << 32)).unwrap_or(false) {
+                                continue;
                             }
                             let probe = Op::Append { q: q.clone(), pos: None, lens: vec![rng.usize(0, 30)], chained: false };
                             let out = s.apply(900_000 + i, &probe);
